@@ -79,7 +79,9 @@ func runProg(prog Prog, prefix []int, bound int, final func(w *World, r *ExecRes
 		recs[i] = make([]CallRec, len(prog.Threads[i]))
 	}
 	clock := 0
-	cfg := vrt.Config{Prefix: prefix, MaxTicks: 40 + prog.Ticks, AtomicOuterWrite: prog.Atomic}
+	// concurrent programs are short: an execution that takes tens of thousands of scheduling
+	// events is a busy loop (e.g. a background writer that re-flushes without ever sleeping)
+	cfg := vrt.Config{Prefix: prefix, MaxTicks: 40 + prog.Ticks, AtomicOuterWrite: prog.Atomic, MaxEvents: 60000}
 	x := vrt.Run(cfg, func() {
 		// set-up and final phases run unscheduled: only the concurrent phase is explored
 		vrt.SetSequential(true)
